@@ -48,6 +48,9 @@ CHECKS = {
  "C16": ("exhaustive enumeration of arrangements of bounded definition sets on the real loader: all permutations in one document, all assignments to <= 3 successive loads with reference-closed prefixes, every single/pair move of a member into an extend block placed before or after its target; all-agree differential oracle (accept, canonical read-back with directive defaults filled, root types, introspection data)",
          "For each definition set every arrangement in the three families is loaded into a fresh root and must agree with the canonical arrangement.",
          "Definition sets of 5-6 units (thorough adds the C13 bases); partitions with unresolvable prefixes are outside the claim; ggqlgen multi-file ordering not yet exercised.", "5.16"),
+ "C14": ("explicit-state exploration of load histories on the real API, no merging: every history of length <= 3 (thorough 4) over a menu of valid and failing documents (8 failure classes x 5 kinds of preceding valid content, AddTypes route) from 3 initial roots, plus every reader-fault offset of every valid document; before/after and failure-deleted differential oracles over SDL, canonical read-back, introspection and fixed requests",
+         "Every history within the bound is replayed on a fresh root; each failing load must leave every observable unchanged and the final state must equal that of the history with the failing loads deleted.",
+         "Observables are those reachable through the public API; quick restricts length-3 histories to those starting in the first 12 menu entries.", "5.14"),
 }
 
 NOT_YET = {}
